@@ -182,6 +182,13 @@ pub fn graph_strategy() -> BoxedStrategy<GraphSpec> {
                 }
                 objs.push(AObj::Dict(d));
             }
+            // destination holders: a valid wrapped destination, one whose /D points back at itself, and a pair pointing
+            // at each other (reached when a focused mutation binds /Dest or /A /D to one of them)
+            let holder0 = objs.len() as u32 + 1;
+            objs.push(AObj::dict(vec![("D", AObj::Array(vec![r(first_page), AObj::name("Fit")]))]));
+            objs.push(AObj::dict(vec![("D", r(holder0 + 1))]));
+            objs.push(AObj::dict(vec![("D", r(holder0 + 3))]));
+            objs.push(AObj::dict(vec![("D", r(holder0 + 2))]));
             for (v, _) in &extras {
                 objs.push(v.clone());
             }
@@ -202,12 +209,16 @@ pub fn graph_strategy() -> BoxedStrategy<GraphSpec> {
                             "Title" => m.value.clone(),
                             "Next" | "First" | "Prev" | "Last" => other,
                             "Parent" => if m.aux & 1 == 0 { r(6) } else { other },
-                            "Dest" => match m.aux % 3 {
+                            "Dest" => match m.aux % 4 {
                                 0 => AObj::Array(vec![r(first_page + (m.aux as u32 >> 2) % n_pages as u32), AObj::name("Fit")]),
                                 1 => AObj::lit(if m.aux & 4 == 0 { b"dest1" } else { b"dest2" }),
+                                2 => r(holder0 + (m.aux as u32 >> 2) % 4),
                                 _ => m.value.clone(),
                             },
-                            _ => AObj::dict(vec![("S", AObj::name(if m.aux & 8 == 0 { "GoTo" } else { "GoToR" })), ("D", AObj::Array(vec![r(first_page), AObj::name("Fit")]))]),
+                            _ => AObj::dict(vec![
+                                ("S", AObj::name(if m.aux & 8 == 0 { "GoTo" } else { "GoToR" })),
+                                ("D", if m.aux & 16 == 0 { AObj::Array(vec![r(first_page), AObj::name("Fit")]) } else { r(holder0 + (m.aux as u32 >> 5) % 4) }),
+                            ]),
                         };
                         if let AObj::Dict(d) = &mut objs[item] {
                             if key == "Dest" {
